@@ -893,13 +893,14 @@ func (t *c19TL) evRelayFinish(b *c19Conn) {
 		t.harnessProblem("relayed response id %d, want %d", f.ID, rc.srcID)
 	}
 	a.relaySrcN--
-	wantA, wantB := a.oRelayPending-1, b.oRelayPending-1
-	t.waitCounts(a, "relay pending decrement (source)", func(s tchannel.VerifC19ConnState) bool { return s.RelayPending == wantA })
-	t.waitCounts(b, "relay pending decrement (destination)", func(s tchannel.VerifC19ConnState) bool { return s.RelayPending == wantB })
 	now := t.clock.get()
 	a.oLastCall, b.oLastCall = now, now
 	a.oRelayPending--
 	b.oRelayPending--
+	// the call is over on the wire: wait for the relay's item tables, not for the counter the
+	// sweep reads (a counter that stays up is the sweep oracle's business, not a harness anomaly)
+	t.c19xSettle(a)
+	t.c19xSettle(b)
 	t.settleClosing(a)
 	t.settleClosing(b)
 	t.ev(2, int64(b.id), 4)
@@ -1780,6 +1781,11 @@ func engineIdleHealth(rng *rand.Rand, n int, tier string, o *Out) {
 	c19IdleOpts(rng, o)
 	for i := 0; i < n; i++ {
 		c19RunTimeline(rng, i, tier, o)
+	}
+	// relay in the middle, relayed calls that end abnormally, then the sweep (engine_idlerelayend.go):
+	// two directed timelines per way of ending, then random ones
+	for i := 0; i < 2*len(c19xKinds)+n/8; i++ {
+		c19xRunTimeline(rng, i, tier, o)
 	}
 	if len(anomalies.b) > 0 {
 		lines := 0
